@@ -116,6 +116,15 @@ theorem C06_rename_perm_sound (P : Prog) (d : FnDef) (f1 f2 : Nat) (σ : List St
     evalS (envOf (σ.zip vs)) e = some v :=
   C06_rename_names_sound P d f1 f2 σ e vs v (hperm.nodup_iff.mpr hnd) (by rw [hperm.length_eq]; exact hlen) htr hpy
 
+/-- **What is not a plain module-level `def` is bound soundly or refused** (facts read from the entry of `fn_to_sympy`): a
+function object whose source is another function's — a decorator that wraps, `inspect.getsource` follows `__wrapped__` —
+is refused (F-C06-17); the free variables of a closure are bound to the numbers in its cells, like function-local
+constants, and closing over anything else is refused (F-C06-18).  In the model a closure number is the `importS` binding
+of a number (covered by `C06_sound`), the refusals are `unhandled` statements (`C06_unlisted_stmt_refused`); lambdas, nested
+`def`s, `functools.partial` objects and calls that rely on default values are refused by the dispatch lists and the strict
+`zip` (`C06_unlisted_expr_refused`, `callKw`). -/
+theorem C06_entry_facts_generated : Generated.wrappedRefused = true ∧ Generated.closuresFromCells = true := by decide
+
 /-- **Nested calls.** The translation of `g(args)` is the translation of `g`'s body — started with *empty* import
 tables: the callee never sees the caller's function-local imports — with the translated arguments substituted
 *simultaneously* for `g`'s parameters.  The function expression is resolved among the caller's function-local
